@@ -10,15 +10,24 @@ import (
 // vScript is a transport whose receive side plays a list of packets and then
 // blocks until the context is cancelled (like a silent relay).
 type vScript struct {
-	in   [][]byte
-	out  [][]byte
-	next int
+	in    [][]byte
+	out   [][]byte
+	next  int
+	pause time.Duration // a nil entry of `in` is a silence of this length
 }
 
 func (w *vScript) recv(ctx context.Context) ([]byte, error) {
-	if w.next < len(w.in) {
+	for w.next < len(w.in) {
 		b := w.in[w.next]
 		w.next++
+		if b == nil {
+			select {
+			case <-time.After(w.pause):
+				continue
+			case <-ctx.Done():
+				return nil, ctx.Err()
+			}
+		}
 		return b, nil
 	}
 	<-ctx.Done()
@@ -74,6 +83,80 @@ func VH_C07_ServerSYN() {
 	c.SetRecvTimeout(5 * time.Second)
 	m, err := c.Recv()
 	vAssert(err == nil && len(m) == 1 && m[0] == 0x2a, "first data packet not delivered after the handshake")
+	cancel()
+	c.Close()
+}
+
+// VH_C10_ServerScript: the server handshake fed with a script of `steps`
+// symbolic handshake-phase packets - each one a SYN with an arbitrary window
+// byte, a SYNACK, a DATA packet, an ACK, or a pause longer than the handshake
+// timeout (silence) - followed by SYNACK and one DATA packet. Whatever the
+// history (re-sent SYNs, SYNs of an earlier connection, invalid SYNs between
+// valid ones, timeouts), a server that reaches the data phase uses a window
+// that some SYN of the history proposed and that the protocol can represent,
+// and the first DATA packet does not crash it.
+func VH_C10_ServerScript() {
+	steps := vParam("steps", 3)
+	synack, _ := (&PacketSYNACK{}).Serialize()
+	data, _ := (&PacketData{Seq: 0, FinalChunk: true, Payload: []byte{0x2a}}).Serialize()
+	ack, _ := (&PacketACK{Seq: 0}).Serialize()
+	w := &vScript{}
+	var proposed []uint8
+	for i := 0; i < steps; i++ {
+		switch vIntRange("kind", 0, 4) {
+		case 0:
+			nField := vU8("syn_n")
+			syn, _ := (&PacketSYN{N: nField}).Serialize()
+			proposed = append(proposed, nField)
+			w.in = append(w.in, syn)
+		case 1:
+			w.in = append(w.in, synack)
+		case 2:
+			w.in = append(w.in, data)
+		case 3:
+			w.in = append(w.in, ack)
+		case 4:
+			w.in = append(w.in, nil) // pause marker
+		}
+	}
+	w.in = append(w.in, synack, data)
+	w.pause = 2 * time.Second
+	ctx, cancel := context.WithCancel(context.Background())
+	type res struct {
+		c   *GoBackNConn
+		err error
+	}
+	done := make(chan res, 1)
+	go func() {
+		c, err := NewServerConn(ctx, w.send, w.recv, WithTimeoutOptions(WithHandshakeTimeout(time.Second)))
+		done <- res{c, err}
+	}()
+	var r res
+	select {
+	case r = <-done:
+	case <-time.After(30 * time.Second):
+		vReach("script-ignored")
+		cancel()
+		return
+	}
+	if r.err != nil || r.c == nil {
+		vReach("script-refused")
+		cancel()
+		return
+	}
+	c := r.c
+	vReach("script-data-phase")
+	vAssert(c.cfg.n >= 1 && c.cfg.n <= 254, "server entered the data phase with a window size the protocol cannot represent")
+	vAssert(c.cfg.s == c.cfg.n+1 && c.cfg.s > c.cfg.n, "sequence space is not strictly larger than the window")
+	vAssert(len(c.sendQueue.content) == int(c.cfg.s), "queue content array is not s slots")
+	found := false
+	for _, p := range proposed {
+		found = found || p == c.cfg.n
+	}
+	vAssert(found, "server entered the data phase with a window no SYN proposed")
+	// the data phase must survive what is left of the script
+	c.SetRecvTimeout(5 * time.Second)
+	_, _ = c.Recv()
 	cancel()
 	c.Close()
 }
